@@ -123,7 +123,7 @@ def main(ctx, replay=None):
             ek = evaluate(poly["vdgdv"], {"x": x}) + 0 * x
             if not (numpy.allclose(w[:, -1, -1], ew, rtol=max(1e-6, TOL[method][0])) and numpy.allclose(gam[:, -1, -1], eg, atol=max(1e-5, 5 * TOL[method][1])) and numpy.allclose(kap[:, -1, -1], ek, atol=max(1e-4, 20 * TOL[method][2]))):
                 ctx.violation(f"{method} order {order} nv {nv}: ln(omega) polynomial of degree {poly['deg']} in ln V is not reproduced "
-                              f"(gamma err {numpy.abs(gam[:,1,0]-eg).max():.2e}, V dgamma/dV err {numpy.abs(kap[:,1,0]-ek).max():.2e})", case2,
+                              f"(gamma err {numpy.abs(gam[:, -1, -1]-eg).max():.2e}, V dgamma/dV err {numpy.abs(kap[:, -1, -1]-ek).max():.2e})", case2,
                               {**sig, "clause": "in_class"})
         # ---- (3) generic smooth table: the triple belongs to one interpolant -----------------------------
         xs = numpy.log(volumes / vmax)
@@ -184,12 +184,15 @@ def plot_table(ctx, table, rng):
                            np=np_, v_array=numpy.linspace(550, 380, ntv), qha_input=make_input(vol, fr))
     calc.mode_gamma[2] = calc.mode_gamma[1] ** 2
     src = {"omega": calc.freq_array, "gamma": calc.mode_gamma[1], "vdgdv": calc.mode_gamma[0]}
-    for n in (0, 1, 2):
-        for iq in (0, 1):
+    shared = ModePlotter(calc)               # one plotter asked for several pictures, next to fresh plotters
+    order = [(n, iq, fresh) for fresh in (True, False) for n in (0, 1, 2) for iq in (0, 1)]
+    order = [order[int(i)] for i in rng.permutation(len(order))]
+    for n, iq, fresh in order:
+        if True:
             ax = RecAxes()
-            ctx.count({"plot": n, "iq": iq})
+            ctx.count({"plot": n, "iq": iq, "fresh_plotter": fresh})
             try:
-                ModePlotter(calc).plot_modes(ax, n, iq)
+                (ModePlotter(calc) if fresh else shared).plot_modes(ax, n, iq)
             except Exception as ex:
                 ctx.violation(f"plot_modes(n={n}, iq={iq}) raised {ex!r}", {"n": n, "iq": iq}, {"clause": "plot_raises"})
                 continue
